@@ -186,9 +186,23 @@ UrlQuote(cs) == Flatten([k \in 1..Len(cs) |->
 UrlQuoteQS(cs) == Flatten([k \in 1..Len(cs) |->
                     IF UrlUnreserved(cs[k]) THEN <<cs[k]>>
                     ELSE IF cs[k] = cSP THEN <<cPLUS>> ELSE PctBytes(Utf8(cs[k]))])
+\* Values that are not strings are "converted to string" (url_quote) before they are quoted: the
+\* text is str(value), and str() tells an int from a float from a bool -- 1, 1.0 and True compare
+\* equal in Python but are quoted as "1", "1.0" and "True".  str() of a float that is exact in
+\* thousandths (FVal "f", |x| < 2^31 / 1000: repr never uses an exponent there): sign, integer
+\* part, ".", the decimals without trailing zeros but at least one digit.
+FloatStr(m) ==
+    LET a    == IF m < 0 THEN 0 - m ELSE m
+        frac == a % 1000
+        ds   == IF frac % 100 = 0 THEN <<48 + (frac \div 100)>>
+                ELSE IF frac % 10 = 0 THEN <<48 + (frac \div 100), 48 + ((frac \div 10) % 10)>>
+                ELSE <<48 + (frac \div 100), 48 + ((frac \div 10) % 10), 48 + (frac % 10)>>
+    IN (IF m < 0 THEN <<45>> ELSE <<>>) \o NatDigits(a \div 1000) \o <<cDOT>> \o ds
+UrlTextOf(a) == IF a.t = "f" THEN FloatStr(a.v) ELSE StrOf(a)
+IsScalarV(a) == a.t \in {"i", "b", "n", "f"}
 \* a mapping / sequence of pairs: key=value joined by "&"
 UrlEncodePairs(ps) ==
-    JoinSeqs([k \in 1..Len(ps) |-> UrlQuoteQS(StrOf(ps[k][1])) \o <<61>> \o UrlQuoteQS(StrOf(ps[k][2]))], <<cAMP>>)
+    JoinSeqs([k \in 1..Len(ps) |-> UrlQuoteQS(UrlTextOf(ps[k][1])) \o <<61>> \o UrlQuoteQS(UrlTextOf(ps[k][2]))], <<cAMP>>)
 \* the clause "nothing but unreserved ASCII, / + = & and percent-XX reaches a URL"
 UrlClean(out) == \A k \in 1..Len(out) : UrlSafeC(out[k]) \/ out[k] \in {cPCT, cPLUS, 61, cAMP}
 
